@@ -3,6 +3,7 @@ C10 — Gzip transparency and integrity. The glue of go/gzip/gzip.go around comp
 (an oracle, `GzOracle`) and the frame-level threshold rule. Property theorems only.
 -/
 import OAP.Model.Frame
+import OAP.Proofs.Frame
 namespace OAP.C10
 open OAP OAP.Frame
 
@@ -53,11 +54,13 @@ private theorem bind_ok_inv {α β} (r : Res α) (f : α → Res β) (x : β) (h
   | err e => cases h
   | panic w => cases h
 
-/-- the packet as it leaves Pack: either untouched, or with the compressor's output as body and the flag set -/
+/-- the packet as it leaves Pack: the compressor's output as body and the flag set when the threshold
+rule engaged; otherwise the body untouched and the flag CLEAR (a flag left over from the frame the
+packet was decoded from — a relayed packet — is not carried into this frame) -/
 theorem pack_packet (v : Ver) (gz : GzOracle) (p p' : Packet) (thr : Int) (bs : Bytes)
     (h : pack v gz p thr = .ok (bs, p')) :
     (gzipCond v thr p.body.length = true ∧ ∃ c, gz.compress p.body = .ok c ∧ p' = { p with body := c, gzip := true }) ∨
-    (gzipCond v thr p.body.length = false ∧ p' = p) := by
+    (gzipCond v thr p.body.length = false ∧ p' = { p with gzip := false }) := by
   unfold pack at h
   obtain ⟨p1, h1, h2⟩ := bind_ok_inv _ _ _ h
   have hp' : p' = p1 := by
@@ -81,10 +84,22 @@ theorem pack_packet (v : Ver) (gz : GzOracle) (p p' : Packet) (thr : Int) (bs : 
     simp only [hc', Bool.false_eq_true, ↓reduceIte] at h1
     cases h1; exact ⟨hc', rfl⟩
 
-/-- frame level: a packet whose gzip flag is initially clear leaves Pack flagged exactly when the
-threshold rule engaged, and then its body is what the compressor returned -/
-theorem gzip_flag_iff (v : Ver) (gz : GzOracle) (p p' : Packet) (thr : Int) (bs : Bytes)
+/-- under the hypothesis of the round-trip theorems (`p.gzip = false`, part of `C01.InDomain`) the packet
+that was not compressed leaves Pack untouched, as before the repair -/
+theorem pack_packet_clear (v : Ver) (gz : GzOracle) (p p' : Packet) (thr : Int) (bs : Bytes)
     (h0 : p.gzip = false) (h : pack v gz p thr = .ok (bs, p')) :
+    (gzipCond v thr p.body.length = true ∧ ∃ c, gz.compress p.body = .ok c ∧ p' = { p with body := c, gzip := true }) ∨
+    (gzipCond v thr p.body.length = false ∧ p' = p) := by
+  rcases pack_packet v gz p p' thr bs h with hx | ⟨hc, hp⟩
+  · exact .inl hx
+  · refine .inr ⟨hc, ?_⟩
+    rw [hp, ← h0]
+
+/-- frame level, for EVERY packet — whatever its incoming gzip flag: it leaves Pack flagged exactly when
+the threshold rule engaged, and then its body is what the compressor returned; otherwise its body is
+untouched -/
+theorem gzip_flag_iff (v : Ver) (gz : GzOracle) (p p' : Packet) (thr : Int) (bs : Bytes)
+    (h : pack v gz p thr = .ok (bs, p')) :
     (p'.gzip = true ↔ (thr ≠ 0 ∧ thr ≤ p.body.length)) ∧
     (p'.gzip = true → gz.compress p.body = .ok p'.body) ∧ (p'.gzip = false → p'.body = p.body) := by
   rcases pack_packet v gz p p' thr bs h with ⟨hc, c, hcomp, hp⟩ | ⟨hc, hp⟩
@@ -95,15 +110,95 @@ theorem gzip_flag_iff (v : Ver) (gz : GzOracle) (p p' : Packet) (thr : Int) (bs 
       intro hx; have := (gzipCond_iff v thr p.body.length).mpr hx; rw [hc] at this; cases this
     subst hp
     refine ⟨?_, ?_, ?_⟩
-    · simp only [h0]; constructor
+    · constructor
       · intro hx; cases hx
       · intro hx; exact absurd hx hi
-    · intro hx; rw [h0] at hx; cases hx
+    · intro hx; cases hx
     · intro _; rfl
+
+/-- the repaired case made explicit. A RELAYED packet: its gzip flag is set (as the decoder returns it
+for a compressed frame — the body it carries is the decompressed content) and it is packed again with
+a threshold that does not engage. It leaves Pack with the flag clear and the body untouched: the flag
+was changed (`p'.gzip ≠ p.gzip`), nothing else was (`p' = { p with gzip := false }`) -/
+theorem relayed_packet_flag (v : Ver) (gz : GzOracle) (p p' : Packet) (thr : Int) (bs : Bytes)
+    (hg : p.gzip = true) (hc : gzipCond v thr p.body.length = false)
+    (h : pack v gz p thr = .ok (bs, p')) :
+    p'.gzip = false ∧ p'.body = p.body ∧ p'.gzip ≠ p.gzip ∧ p' = { p with gzip := false } := by
+  rcases pack_packet v gz p p' thr bs h with ⟨hc', _⟩ | ⟨_, hp⟩
+  · rw [hc] at hc'; cases hc'
+  · subst hp
+    refine ⟨rfl, rfl, ?_, rfl⟩
+    rw [hg]; intro hx; cases hx
+
+/-- ON THE WIRE: the gzip bit (bit 5) of byte 0 of the frame Pack emits IS the engagement of the
+threshold rule — for every packet Pack accepts (so: of a known type), whatever its incoming gzip flag.
+Stated three ways: arithmetically on byte 0, as the decoder extracts it (`ubGzip`), and on the frame of
+the published layout that the output is (`C02.pack_conforms`: `bs = Spec.encode v (specOf v p')`) -/
+theorem frame_flag_is_engagement (v : Ver) (gz : GzOracle) (p p' : Packet) (thr : Int) (bs : Bytes)
+    (h : pack v gz p thr = .ok (bs, p')) :
+    ∃ b0 rest, bs = b0 :: rest ∧
+      (b0.toNat / 32 % 2 = 1 ↔ (thr ≠ 0 ∧ thr ≤ p.body.length)) ∧
+      (ubGzip v b0 = 1 ↔ (thr ≠ 0 ∧ thr ≤ p.body.length)) ∧
+      ((specOf v p').gzip = 1 ↔ (thr ≠ 0 ∧ thr ≤ p.body.length)) := by
+  obtain ⟨hflag, _, _⟩ := gzip_flag_iff v gz p p' thr bs h
+  obtain ⟨t, rest, ht, hbs⟩ := pack_byte0 v gz p p' thr bs h
+  refine ⟨_, rest, hbs, ?_, ?_, ?_⟩
+  · rw [← hflag, UInt8.toNat_ofNat']
+    cases p'.verify <;> cases p'.gzip <;> rcases ht with rfl | rfl | rfl <;> decide
+  · rw [← hflag]
+    obtain ⟨_, _, e3, _⟩ := b0_fields v t (if p'.verify then 1 else 0) (if p'.gzip then 1 else 0) 0
+      (by rcases ht with rfl | rfl | rfl <;> decide) (by split <;> decide) (by split <;> decide) (by decide)
+    rw [e3]
+    cases p'.gzip <;> decide
+  · rw [← hflag]
+    simp only [specOf]
+    cases p'.gzip <;> decide
 
 /-! non-vacuity -/
 example : gzipCond .v1 1024 1024 = true ∧ gzipCond .v1 1024 1023 = false ∧ gzipCond .v2 0 5000 = false ∧
     gzipCond .v2 (-1) 0 = true := by decide
 example : Gzip.allocDecompress [0x1f, 0x8b, 8, 0, 0xff, 0xff, 0xff, 0x7f] ≤ 8 * 1032 + 512 := by decide
+
+/-! non-vacuity of the relayed case. `relayed`: a push packet as a decoder returns it for a compressed
+frame (gzip flag set, the body the decompressed content, 3 bytes). `idGz`: the identity "compressor"
+(the one of C01's examples), which is Sound. -/
+
+def idGz : GzOracle := { compress := fun x => .ok x, read := fun c => some (c, true) }
+def relayed : Packet := { type := .push, cmd := 7, gzip := true, body := [1, 2, 3] }
+
+example : idGz.Sound := fun x => ⟨x, rfl, rfl⟩
+
+/-- v1, threshold 0 (never compress): the frame's byte 0 is 0x03 — gzip bit (bit 5, mask 0x20) CLEAR
+although the packet came in flagged —, the body goes out as it is, and `UnpackBytes` returns it -/
+example :
+    pack .v1 idGz relayed 0 = .ok ([0x03, 7, 0, 0, 3, 1, 2, 3], { relayed with gzip := false }) ∧
+    (0x03 : UInt8) &&& 0x20 = 0 ∧ (0x03 : UInt8).toNat / 32 % 2 = 0 ∧
+    unpackBytes .v1 idGz 0 [0x03, 7, 0, 0, 3, 1, 2, 3] = .ok { type := .push, cmd := 7, body := [1, 2, 3] } := by decide
+
+/-- v1, threshold 3 ≤ 3 bytes (engages): byte 0 is 0x23 — gzip bit SET -/
+example :
+    pack .v1 idGz relayed 3 = .ok ([0x23, 7, 0, 0, 3, 1, 2, 3], relayed) ∧
+    (0x23 : UInt8) &&& 0x20 = 0x20 ∧ (0x23 : UInt8).toNat / 32 % 2 = 1 ∧
+    unpackBytes .v1 idGz 0 [0x23, 7, 0, 0, 3, 1, 2, 3] = .ok relayed := by decide
+
+/-- v2 (two more header bytes: metadata_len = 0), threshold 0: gzip bit clear, body returned.
+(`decide +kernel`: `pack .v2` runs the metadata block's merge sort, which only the kernel unfolds.) -/
+example :
+    pack .v2 idGz relayed 0 = .ok ([0x03, 7, 0, 0, 0, 0, 3, 1, 2, 3], { relayed with gzip := false }) ∧
+    (0x03 : UInt8) &&& 0x20 = 0 ∧
+    unpackBytes .v2 idGz 0 [0x03, 7, 0, 0, 0, 0, 3, 1, 2, 3] = .ok { type := .push, cmd := 7, body := [1, 2, 3] } := by
+  decide +kernel
+
+/-- v2, threshold 3 (engages): gzip bit set -/
+example :
+    pack .v2 idGz relayed 3 = .ok ([0x23, 7, 0, 0, 0, 0, 3, 1, 2, 3], relayed) ∧
+    (0x23 : UInt8) &&& 0x20 = 0x20 ∧
+    unpackBytes .v2 idGz 0 [0x23, 7, 0, 0, 0, 0, 3, 1, 2, 3] = .ok relayed := by
+  decide +kernel
+
+/-- the hypotheses of `relayed_packet_flag` are jointly satisfiable (both versions), and its conclusion
+is what the first and third example show -/
+example : relayed.gzip = true ∧ gzipCond .v1 0 relayed.body.length = false ∧ gzipCond .v2 0 relayed.body.length = false ∧
+    (pack .v1 idGz relayed 0).isOk = true := by decide
 
 end OAP.C10
